@@ -72,10 +72,10 @@ func c10Load(data []byte) c10Loaded {
 type c10Eff struct {
 	counts, settings, onStartup  string
 	kubes, scheds, val, mut, conv []string
-	typed                        string // digest of the typed (decoded) document: equal for YAML and JSON
+	typed                        string // c10Digest of the typed (decoded) document: equal for YAML and JSON
 }
 
-func evs(k htypes.OnKubernetesEventConfig) []string {
+func c10Evs(k htypes.OnKubernetesEventConfig) []string {
 	var out []string
 	for _, e := range k.Monitor.EventTypes {
 		out = append(out, string(e))
@@ -102,18 +102,18 @@ func c10Render(cfg *config.HookConfig) c10Eff {
 	for _, k := range cfg.OnKubernetesEvents {
 		flags := "sync=* wait=* keep=*"
 		if !v0 {
-			keep := tokBit(k.KeepFullObjectsInMemory)
+			keep := c10TokBit(k.KeepFullObjectsInMemory)
 			if k.Monitor.KeepFullObjectsInMemory != k.KeepFullObjectsInMemory {
 				keep = "monitor-differs"
 			}
-			flags = fmt.Sprintf("sync=%s wait=%s keep=%s", tokBit(k.ExecuteHookOnSynchronization), tokBit(k.WaitForSynchronization), keep)
+			flags = fmt.Sprintf("sync=%s wait=%s keep=%s", c10TokBit(k.ExecuteHookOnSynchronization), c10TokBit(k.WaitForSynchronization), keep)
 		}
-		e.kubes = append(e.kubes, fmt.Sprintf("name=%s ev=%s %s af=%s inc=%s q=%s g=%s pt=%s", tokStr(k.BindingName), tokList(evs(k)), flags,
-			tokBit(k.AllowFailure), tokList(k.IncludeSnapshotsFrom), tokStr(k.Queue), tokStr(k.Group), monitorPT(k.Monitor)))
+		e.kubes = append(e.kubes, fmt.Sprintf("name=%s ev=%s %s af=%s inc=%s q=%s g=%s pt=%s", c10TokStr(k.BindingName), c10TokList(c10Evs(k)), flags,
+			c10TokBit(k.AllowFailure), c10TokList(k.IncludeSnapshotsFrom), c10TokStr(k.Queue), c10TokStr(k.Group), c10MonitorPT(k.Monitor)))
 	}
 	for _, s := range cfg.Schedules {
-		e.scheds = append(e.scheds, fmt.Sprintf("name=%s c=%s af=%s inc=%s q=%s g=%s", tokStr(s.BindingName), tokCron(s.ScheduleEntry.Crontab), tokBit(s.AllowFailure),
-			tokList(s.IncludeSnapshotsFrom), tokStr(s.Queue), tokStr(s.Group)))
+		e.scheds = append(e.scheds, fmt.Sprintf("name=%s c=%s af=%s inc=%s q=%s g=%s", c10TokStr(s.BindingName), c10TokCron(s.ScheduleEntry.Crontab), c10TokBit(s.AllowFailure),
+			c10TokList(s.IncludeSnapshotsFrom), c10TokStr(s.Queue), c10TokStr(s.Group)))
 	}
 	adm := func(name, group string, incl []string, fp *admv1.FailurePolicyType, sf *admv1.SideEffectClass, to *int32, pt string, whName string) string {
 		f, s, t := "nil", "nil", "nil"
@@ -129,17 +129,17 @@ func c10Render(cfg *config.HookConfig) c10Eff {
 		if whName != name {
 			name = name + "!webhook-name:" + whName
 		}
-		return fmt.Sprintf("name=%s inc=%s g=%s fp=%s sf=%s to=%s pt=%s", tokStr(name), tokList(incl), tokStr(group), tokStr(f), tokStr(s), t, pt)
+		return fmt.Sprintf("name=%s inc=%s g=%s fp=%s sf=%s to=%s pt=%s", c10TokStr(name), c10TokList(incl), c10TokStr(group), c10TokStr(f), c10TokStr(s), t, pt)
 	}
 	for _, v := range cfg.KubernetesValidating {
 		w := v.Webhook.ValidatingWebhook
 		e.val = append(e.val, adm(v.BindingName, v.Group, v.IncludeSnapshotsFrom, w.FailurePolicy, w.SideEffects, w.TimeoutSeconds,
-			digest(c10AdmPT{Rules: w.Rules, ObjSel: normLS(w.ObjectSelector), NsSel: normLS(w.NamespaceSelector), MatchCond: w.MatchConditions}), w.Name))
+			c10Digest(c10AdmPT{Rules: w.Rules, ObjSel: c10NormLS(w.ObjectSelector), NsSel: c10NormLS(w.NamespaceSelector), MatchCond: w.MatchConditions}), w.Name))
 	}
 	for _, v := range cfg.KubernetesMutating {
 		w := v.Webhook.MutatingWebhook
 		e.mut = append(e.mut, adm(v.BindingName, v.Group, v.IncludeSnapshotsFrom, w.FailurePolicy, w.SideEffects, w.TimeoutSeconds,
-			digest(c10AdmPT{Rules: w.Rules, ObjSel: normLS(w.ObjectSelector), NsSel: normLS(w.NamespaceSelector), MatchCond: w.MatchConditions}), w.Name))
+			c10Digest(c10AdmPT{Rules: w.Rules, ObjSel: c10NormLS(w.ObjectSelector), NsSel: c10NormLS(w.NamespaceSelector), MatchCond: w.MatchConditions}), w.Name))
 	}
 	for _, c := range cfg.KubernetesConversion {
 		var rs [][2]string
@@ -147,27 +147,27 @@ func c10Render(cfg *config.HookConfig) c10Eff {
 		for _, r := range c.Webhook.Rules {
 			rs = append(rs, [2]string{r.FromVersion, r.ToVersion})
 		}
-		e.conv = append(e.conv, fmt.Sprintf("name=%s inc=%s g=%s pt=%s", tokStr(c.BindingName), tokList(c.IncludeSnapshotsFrom), tokStr(c.Group), digest(c10ConvPT{c.Webhook.CrdName, rs})))
+		e.conv = append(e.conv, fmt.Sprintf("name=%s inc=%s g=%s pt=%s", c10TokStr(c.BindingName), c10TokList(c.IncludeSnapshotsFrom), c10TokStr(c.Group), c10Digest(c10ConvPT{c.Webhook.CrdName, rs})))
 	}
 	if cfg.V1 != nil {
-		e.typed = digest(cfg.V1)
+		e.typed = c10Digest(cfg.V1)
 	} else {
-		e.typed = digest(cfg.V0)
+		e.typed = c10Digest(cfg.V0)
 	}
 	return e
 }
 
 func (e c10Eff) all() string {
-	return digest([]any{e.counts, e.settings, e.onStartup, e.kubes, e.scheds, e.val, e.mut, e.conv, e.typed})
+	return c10Digest([]any{e.counts, e.settings, e.onStartup, e.kubes, e.scheds, e.val, e.mut, e.conv, e.typed})
 }
 
-func c10Bytes(m omap) (y, j []byte) {
+func c10Bytes(m c10Omap) (y, j []byte) {
 	j, _ = json.Marshal(m)
 	y, _ = sigsyaml.JSONToYAML(j)
 	return y, j
 }
 
-func loadedDigest(l c10Loaded) string {
+func c10LoadedDigest(l c10Loaded) string {
 	if l.out != "ok" {
 		return l.out
 	}
@@ -188,7 +188,7 @@ func c10RunDoc(c *Case, d c10Doc, policy string) string {
 	if (ly.out != "ok" && ly.out != "err") || (lj.out != "ok" && lj.out != "err") {
 		c.Op("panic-bytes "+hex.EncodeToString(y), ly.out+"/"+lj.out+": "+ly.msg+lj.msg)
 	}
-	c.Oracle(fmt.Sprintf("same yaml=%s json=%s", loadedDigest(ly), loadedDigest(lj)))
+	c.Oracle(fmt.Sprintf("same yaml=%s json=%s", c10LoadedDigest(ly), c10LoadedDigest(lj)))
 	if ly.out != "ok" {
 		c.Note("verdict:" + ly.out)
 		return ly.out
@@ -225,10 +225,10 @@ func c10RunDoc(c *Case, d c10Doc, policy string) string {
 
 // ------------------------------------------------------------------ generator of valid documents
 
-func bptr(b bool) *bool { return &b }
-func iptr(i int) *int    { return &i }
+func c10Bptr(b bool) *bool { return &b }
+func c10Iptr(i int) *int    { return &i }
 
-func genLabelSel(rng *Rng) *metav1.LabelSelector {
+func c10GenLabelSel(rng *Rng) *metav1.LabelSelector {
 	ls := &metav1.LabelSelector{}
 	k := rng.Intn(3)
 	if k == 0 || k == 2 {
@@ -246,7 +246,7 @@ func genLabelSel(rng *Rng) *metav1.LabelSelector {
 	return ls
 }
 
-func genEvents(rng *Rng) *[]string {
+func c10GenEvents(rng *Rng) *[]string {
 	all := []string{"Added", "Modified", "Deleted"}
 	rng.Shuffle(3, func(i, j int) { all[i], all[j] = all[j], all[i] })
 	n := rng.Intn(4)
@@ -254,17 +254,17 @@ func genEvents(rng *Rng) *[]string {
 	return &l
 }
 
-func optBool(rng *Rng) *bool {
+func c10OptBool(rng *Rng) *bool {
 	switch rng.Intn(3) {
 	case 0:
 		return nil
 	case 1:
-		return bptr(true)
+		return c10Bptr(true)
 	}
-	return bptr(false)
+	return c10Bptr(false)
 }
 
-func genRules(rng *Rng) []admv1.RuleWithOperations {
+func c10GenRules(rng *Rng) []admv1.RuleWithOperations {
 	sc := admv1.NamespacedScope
 	r := admv1.RuleWithOperations{Operations: []admv1.OperationType{admv1.Create}, Rule: admv1.Rule{APIGroups: []string{"apps"}, APIVersions: []string{"v1"}, Resources: []string{"deployments"}}}
 	if rng.Bool() {
@@ -278,7 +278,7 @@ func genRules(rng *Rng) []admv1.RuleWithOperations {
 
 type c10GenOpts struct{ needKube, needSched, needVal, needUniqueKubes bool }
 
-func genDoc(rng *Rng, o c10GenOpts) c10Doc {
+func c10GenDoc(rng *Rng, o c10GenOpts) c10Doc {
 	var d c10Doc
 	nk := rng.Intn(5)
 	if o.needKube && nk == 0 {
@@ -303,12 +303,12 @@ func genDoc(rng *Rng, o c10GenOpts) c10Doc {
 		}
 		k.ApiVersion = PickOne(rng, []string{"", "", "v1", "apps/v1", "stable.example.com/v1"})
 		if rng.Chance(35) {
-			k.ExecEvents = genEvents(rng)
+			k.ExecEvents = c10GenEvents(rng)
 		}
 		if rng.Chance(35) {
-			k.WatchEvents = genEvents(rng)
+			k.WatchEvents = c10GenEvents(rng)
 		}
-		k.Sync, k.Wait, k.Keep, k.AllowFailure = optBool(rng), optBool(rng), optBool(rng), optBool(rng)
+		k.Sync, k.Wait, k.Keep, k.AllowFailure = c10OptBool(rng), c10OptBool(rng), c10OptBool(rng), c10OptBool(rng)
 		if rng.Chance(30) {
 			l := []string{"obj1"}
 			if rng.Bool() {
@@ -320,7 +320,7 @@ func genDoc(rng *Rng, o c10GenOpts) c10Doc {
 			k.NameSel = &l
 		}
 		if rng.Chance(30) {
-			k.LabelSel = genLabelSel(rng)
+			k.LabelSel = c10GenLabelSel(rng)
 		}
 		if rng.Chance(25) {
 			fe := []c10FieldExpr{{"status.phase", PickOne(rng, []string{"=", "==", "Equals", "!=", "NotEquals"}), "Running"}}
@@ -335,11 +335,11 @@ func genDoc(rng *Rng, o c10GenOpts) c10Doc {
 				l := []string{"ns1", "ns2"}
 				k.NsNames = &l
 			case 1:
-				k.NsLabelSel = genLabelSel(rng)
+				k.NsLabelSel = c10GenLabelSel(rng)
 			default:
 				l := []string{"ns1"}
 				k.NsNames = &l
-				k.NsLabelSel = genLabelSel(rng)
+				k.NsLabelSel = c10GenLabelSel(rng)
 			}
 		}
 		if rng.Chance(30) {
@@ -396,7 +396,7 @@ func genDoc(rng *Rng, o c10GenOpts) c10Doc {
 		if rng.Chance(60) {
 			s.Name = PickOne(rng, []string{"every", "nightly", "s" + fmt.Sprint(i)})
 		}
-		s.AllowFailure = optBool(rng)
+		s.AllowFailure = c10OptBool(rng)
 		s.Queue = PickOne(rng, []string{"", "", "q1", "crons"})
 		s.Group = PickOne(rng, groups)
 		if rng.Chance(50) {
@@ -405,20 +405,20 @@ func genDoc(rng *Rng, o c10GenOpts) c10Doc {
 		d.Scheds = append(d.Scheds, s)
 	}
 	genAdm := func(i int, kind string) c10Adm {
-		a := c10Adm{Name: fmt.Sprintf("%s%d.example.com", kind, i), Rules: genRules(rng), Group: PickOne(rng, groups)}
+		a := c10Adm{Name: fmt.Sprintf("%s%d.example.com", kind, i), Rules: c10GenRules(rng), Group: PickOne(rng, groups)}
 		if rng.Chance(50) {
 			a.Includes = pickIncl()
 		}
 		a.FailurePolicy = PickOne(rng, []string{"", "", "Ignore", "Fail"})
 		a.SideEffects = PickOne(rng, []string{"", "", "None", "NoneOnDryRun"})
 		if rng.Chance(40) {
-			a.Timeout = iptr(rng.Range(1, 30))
+			a.Timeout = c10Iptr(rng.Range(1, 30))
 		}
 		if rng.Chance(30) {
-			a.LabelSel = genLabelSel(rng)
+			a.LabelSel = c10GenLabelSel(rng)
 		}
 		if rng.Chance(30) {
-			a.NsLabelSel = genLabelSel(rng)
+			a.NsLabelSel = c10GenLabelSel(rng)
 		}
 		if rng.Chance(20) {
 			a.MatchCond = []admv1.MatchCondition{{Name: "c1", Expression: "object.metadata.name != 'x'"}}
@@ -456,25 +456,25 @@ func genDoc(rng *Rng, o c10GenOpts) c10Doc {
 		d.Settings = &c10Settings{Interval: PickOne(rng, []string{"3s", "100ms", "1m30s", "0"}), Burst: rng.Range(0, 9)}
 	}
 	if rng.Chance(30) {
-		d.OnStartup = iptr(rng.Range(-3, 40))
+		d.OnStartup = c10Iptr(rng.Range(-3, 40))
 	}
 	if len(d.Kubes)+len(d.Scheds)+len(d.Validating)+len(d.Mutating)+len(d.Convs) == 0 && d.OnStartup == nil && d.Settings == nil {
-		d.OnStartup = iptr(1)
+		d.OnStartup = c10Iptr(1)
 	}
 	return d
 }
 
-func genDocV0(rng *Rng) c10Doc {
+func c10GenDocV0(rng *Rng) c10Doc {
 	d := c10Doc{V0: true}
 	if rng.Chance(40) {
-		d.OnStartup = iptr(rng.Range(0, 20))
+		d.OnStartup = c10Iptr(rng.Range(0, 20))
 	}
 	for i := 0; i < rng.Intn(3); i++ {
 		s := c10Sched{Crontab: PickOne(rng, []string{"* * * * *", "*/5 * * * *"})}
 		if rng.Bool() {
 			s.Name = fmt.Sprintf("s%d", i)
 		}
-		s.AllowFailure = optBool(rng)
+		s.AllowFailure = c10OptBool(rng)
 		d.Scheds = append(d.Scheds, s)
 	}
 	for i := 0; i < rng.Intn(3); i++ {
@@ -502,12 +502,12 @@ func genDocV0(rng *Rng) c10Doc {
 			}
 		}
 		if rng.Chance(30) {
-			k.Selector = genLabelSel(rng)
+			k.Selector = c10GenLabelSel(rng)
 		}
 		d.Kubes0 = append(d.Kubes0, k)
 	}
 	if d.OnStartup == nil && len(d.Scheds) == 0 && len(d.Kubes0) == 0 {
-		d.OnStartup = iptr(5)
+		d.OnStartup = c10Iptr(5)
 	}
 	return d
 }
@@ -533,7 +533,7 @@ func c10ApplyTyped(rng *Rng, d c10Doc, fault string) c10Doc {
 		case k == 1 && len(d.Validating) > 0:
 			d.Validating[0].Includes = append(d.Validating[0].Includes, "nope")
 		case k == 2:
-			d.Mutating = append(d.Mutating, c10Adm{Name: "mutx.example.com", Rules: genRules(rng), Includes: []string{"nope"}})
+			d.Mutating = append(d.Mutating, c10Adm{Name: "mutx.example.com", Rules: c10GenRules(rng), Includes: []string{"nope"}})
 		case k == 3:
 			d.Convs = append(d.Convs, c10Conv{Name: "convx", CrdName: "a.b.c", Rules: [][2]string{{"v1", "v2"}}, Includes: []string{"nope"}})
 		default:
@@ -566,7 +566,7 @@ func c10ApplyTyped(rng *Rng, d c10Doc, fault string) c10Doc {
 	case "bad-settings":
 		d.Settings = &c10Settings{Interval: PickOne(rng, []string{"abc", "5", "3 s"}), Burst: 1}
 	case "bad-timeout":
-		d.Validating[0].Timeout = iptr(PickOne(rng, []int{0, 31, -1, 100}))
+		d.Validating[0].Timeout = c10Iptr(PickOne(rng, []int{0, 31, -1, 100}))
 	case "dup-webhook-name":
 		a := d.Validating[0]
 		a.Includes = nil
@@ -594,20 +594,20 @@ var c10SchemaFaults = []string{"unknown-field-top", "unknown-field-kube", "unkno
 	"missing-kind", "missing-crontab", "bad-event-enum", "bad-field-operator", "empty-include-list", "empty-kubernetes-list", "v1-key-in-v0",
 	"string-bool", "extra-selector-prop"}
 
-func c10ApplySchema(rng *Rng, m omap, fault string) omap {
+func c10ApplySchema(rng *Rng, m c10Omap, fault string) c10Omap {
 	b, _ := json.Marshal(m)
-	var c omap
+	var c c10Omap
 	_ = json.Unmarshal(b, &c)
-	first := func(key string) omap { return c[key].([]any)[0].(map[string]any) }
+	first := func(key string) c10Omap { return c[key].([]any)[0].(map[string]any) }
 	switch fault {
 	case "unknown-field-top":
-		c[PickOne(rng, []string{"kubernets", "onStartUp", "extra"})] = PickOne(rng, []any{1, "x", []any{}, omap{}})
+		c[PickOne(rng, []string{"kubernets", "onStartUp", "extra"})] = PickOne(rng, []any{1, "x", []any{}, c10Omap{}})
 	case "unknown-field-kube":
 		first("kubernetes")[PickOne(rng, []string{"mode", "names", "watchEvents", "includeSnapshots"})] = "x"
 	case "unknown-field-sched":
 		first("schedule")[PickOne(rng, []string{"cron", "allowFail", "kind"})] = "x"
 	case "unknown-field-nested":
-		first("kubernetes")["nameSelector"] = omap{"matchNames": []any{"a"}, "matchName": []any{"b"}}
+		first("kubernetes")["nameSelector"] = c10Omap{"matchNames": []any{"a"}, "matchName": []any{"b"}}
 	case "wrong-type-name":
 		first("kubernetes")["name"] = PickOne(rng, []any{5, true, []any{"a"}})
 	case "wrong-type-allowfailure":
@@ -615,7 +615,7 @@ func c10ApplySchema(rng *Rng, m omap, fault string) omap {
 	case "wrong-type-onstartup":
 		c["onStartup"] = PickOne(rng, []any{"10", true, 1.5, []any{1}})
 	case "wrong-type-list":
-		c[PickOne(rng, []string{"kubernetes", "schedule"})] = PickOne(rng, []any{omap{"kind": "Pod"}, "x", 3})
+		c[PickOne(rng, []string{"kubernetes", "schedule"})] = PickOne(rng, []any{c10Omap{"kind": "Pod"}, "x", 3})
 	case "version-v2":
 		c["configVersion"] = PickOne(rng, []string{"v2", "v10", "V1", "1", "v1 "})
 	case "version-int":
@@ -631,7 +631,7 @@ func c10ApplySchema(rng *Rng, m omap, fault string) omap {
 	case "bad-event-enum":
 		first("kubernetes")[PickOne(rng, []string{"executeHookOnEvent", "watchEvent"})] = []any{"Added", PickOne(rng, []string{"Created", "added", "Synchronization"})}
 	case "bad-field-operator":
-		first("kubernetes")["fieldSelector"] = omap{"matchExpressions": []any{omap{"field": "status.phase", "operator": PickOne(rng, []string{"In", "<", "=~"}), "value": "x"}}}
+		first("kubernetes")["fieldSelector"] = c10Omap{"matchExpressions": []any{c10Omap{"field": "status.phase", "operator": PickOne(rng, []string{"In", "<", "=~"}), "value": "x"}}}
 	case "empty-include-list":
 		first("schedule")["includeSnapshotsFrom"] = []any{}
 	case "empty-kubernetes-list":
@@ -641,7 +641,7 @@ func c10ApplySchema(rng *Rng, m omap, fault string) omap {
 	case "string-bool":
 		first("kubernetes")[PickOne(rng, []string{"keepFullObjectsInMemory", "executeHookOnSynchronization", "waitForSynchronization"})] = "false"
 	case "extra-selector-prop":
-		first("kubernetes")["labelSelector"] = omap{"matchLabels": omap{"a": "b"}, "matchExpressions": []any{}, "matchFields": []any{}}
+		first("kubernetes")["labelSelector"] = c10Omap{"matchLabels": c10Omap{"a": "b"}, "matchExpressions": []any{}, "matchFields": []any{}}
 	}
 	return c
 }
@@ -805,11 +805,11 @@ func runC10(r *Run) {
 		c.Desc = "corpus: every default at once, [] events, priorities, group union with declared includes"
 		c.Nontrivial = true
 		ee, we := []string{}, []string{"Added"}
-		d := c10Doc{Settings: &c10Settings{"3s", 5}, OnStartup: iptr(7),
-			Kubes: []c10Kube{{Kind: "Pod", Name: "a", Group: "g", ExecEvents: &ee, WatchEvents: &we, Keep: bptr(false)},
-				{Kind: "Pod", Name: "b", Group: "g", Queue: "q", Wait: bptr(false)}, {Kind: "Pod", Wait: bptr(false), Includes: []string{"a"}}},
+		d := c10Doc{Settings: &c10Settings{"3s", 5}, OnStartup: c10Iptr(7),
+			Kubes: []c10Kube{{Kind: "Pod", Name: "a", Group: "g", ExecEvents: &ee, WatchEvents: &we, Keep: c10Bptr(false)},
+				{Kind: "Pod", Name: "b", Group: "g", Queue: "q", Wait: c10Bptr(false)}, {Kind: "Pod", Wait: c10Bptr(false), Includes: []string{"a"}}},
 			Scheds:     []c10Sched{{Crontab: "* * * * *", Group: "g", Includes: []string{"kubernetes", "a"}}, {Crontab: "1 * * * *", Name: "s"}},
-			Validating: []c10Adm{{Name: "v.example.com", Group: "g", Rules: genRules(rng)}},
+			Validating: []c10Adm{{Name: "v.example.com", Group: "g", Rules: c10GenRules(rng)}},
 			Convs:      []c10Conv{{Name: "conv", CrdName: "a.b.c", Rules: [][2]string{{"v1", "v2"}}, Includes: []string{"kubernetes"}}}}
 		c10RunDoc(c, d, policy)
 	})
@@ -829,10 +829,10 @@ func runC10(r *Run) {
 	r.Cases(10, nValid, 0, func(c *Case, rng *Rng) {
 		var d c10Doc
 		if rng.Chance(12) {
-			d = genDocV0(rng)
+			d = c10GenDocV0(rng)
 			c.Note("doc:v0")
 		} else {
-			d = genDoc(rng, c10GenOpts{needUniqueKubes: false})
+			d = c10GenDoc(rng, c10GenOpts{needUniqueKubes: false})
 			c.Note("doc:v1")
 		}
 		v := c10RunDoc(c, d, policy)
@@ -860,7 +860,7 @@ func runC10(r *Run) {
 		c.Nontrivial = true
 		if rng.Chance(45) {
 			fault := c10TypedFaults[(c.Idx-200000)%len(c10TypedFaults)]
-			d := genDoc(rng, c10GenOpts{needKube: true, needSched: true, needVal: true, needUniqueKubes: true})
+			d := c10GenDoc(rng, c10GenOpts{needKube: true, needSched: true, needVal: true, needUniqueKubes: true})
 			d = c10ApplyTyped(rng, d, fault)
 			c.Desc = "typed fault " + fault
 			c.Note("fault:" + fault)
@@ -872,7 +872,7 @@ func runC10(r *Run) {
 			return
 		}
 		fault := c10SchemaFaults[(c.Idx-200000)%len(c10SchemaFaults)]
-		d := genDoc(rng, c10GenOpts{needKube: true, needSched: true})
+		d := c10GenDoc(rng, c10GenOpts{needKube: true, needSched: true})
 		m := c10ApplySchema(rng, d.toMap(), fault)
 		c.Desc = "schema fault " + fault
 		c.Note("fault:" + fault)
@@ -891,7 +891,7 @@ func runC10(r *Run) {
 	})
 	nFuzz := r.N(2500, 40000)
 	r.Cases(300000, nFuzz, 0, func(c *Case, rng *Rng) {
-		d := genDoc(rng, c10GenOpts{needKube: rng.Bool(), needSched: rng.Bool(), needVal: rng.Chance(30)})
+		d := c10GenDoc(rng, c10GenOpts{needKube: rng.Bool(), needSched: rng.Bool(), needVal: rng.Chance(30)})
 		b, _ := json.Marshal(d.toMap())
 		var m any
 		_ = json.Unmarshal(b, &m)
@@ -900,7 +900,7 @@ func runC10(r *Run) {
 		ly, lj := c10Load(y), c10Load(j)
 		c.Oracle("nopanic out=" + ly.out)
 		c.Oracle("nopanic out=" + lj.out)
-		c.Oracle(fmt.Sprintf("same yaml=%s json=%s", loadedDigest(ly), loadedDigest(lj)))
+		c.Oracle(fmt.Sprintf("same yaml=%s json=%s", c10LoadedDigest(ly), c10LoadedDigest(lj)))
 		c.Note("valuefuzz:" + ly.out)
 		c.Desc = "schema-valid document with odd scalar values (testing)"
 		c.Nontrivial = true
@@ -908,15 +908,15 @@ func runC10(r *Run) {
 			c.Desc = strings.ToUpper(ly.out+"/"+lj.out) + " on bytes " + hex.EncodeToString(j)
 			c.Op("panic-bytes "+hex.EncodeToString(j), ly.out+"/"+lj.out+": "+ly.msg+lj.msg)
 		}
-		c.Op("bytes "+digest(string(j)), "bad-op")
+		c.Op("bytes "+c10Digest(string(j)), "bad-op")
 	})
 	nMal := r.N(6000, 120000)
 	r.Cases(400000, nMal, 0, func(c *Case, rng *Rng) {
 		var base []byte
 		if rng.Chance(15) {
-			base, _ = c10Bytes(genDocV0(rng).toMap())
+			base, _ = c10Bytes(c10GenDocV0(rng).toMap())
 		} else {
-			y, j := c10Bytes(genDoc(rng, c10GenOpts{}).toMap())
+			y, j := c10Bytes(c10GenDoc(rng, c10GenOpts{}).toMap())
 			base = y
 			if rng.Chance(30) {
 				base = j
@@ -933,7 +933,7 @@ func runC10(r *Run) {
 			c.Desc = strings.ToUpper(l.out) + " on bytes " + hex.EncodeToString(b)
 			c.Op("panic-bytes "+hex.EncodeToString(b), l.out+": "+l.msg)
 		}
-		// distinct cases are counted by their op lines: carry a digest of the input
-		c.Op("bytes "+digest(string(b)), "bad-op")
+		// distinct cases are counted by their op lines: carry a c10Digest of the input
+		c.Op("bytes "+c10Digest(string(b)), "bad-op")
 	})
 }
